@@ -418,6 +418,9 @@ func (g *docGen) field(b *strings.Builder, parent *GType, f *GField, depth int, 
 		sc.kids[resp] = kid
 	}
 	line := ind
+	if r.Chance(1, 30) {
+		line = ind + "# " + Pick(r, []string{"note", " spaced comment ", "TODO: check"}) + "\n" + ind
+	}
 	if al != "" {
 		line += al + ": "
 	}
@@ -519,7 +522,24 @@ func (g *docGen) fragment(t *GType, depth int) string {
 			}
 		}
 	}
-	g.frags = append(g.frags, "fragment "+name+" on "+cond+g.directives("FRAGMENT_DEFINITION")+" {\n"+body+"}\n")
+	fvars := ""
+	if r.Chance(1, 25) {
+		// experimental fragment variable definitions (the parser accepts them)
+		in := Pick(r, append(g.s.byKind("ENUM", "INPUT"), &GType{Name: "Int"}, &GType{Name: "String"}))
+		tr := &TRef{Name: in.Name}
+		def := ""
+		if r.Chance(1, 2) {
+			def = " = " + GenLiteral(r, g.s, tr, 1, false)
+			if r.Chance(1, 3) {
+				def = " = \"wrong kind\""
+			}
+		}
+		fvars = "($fv" + strconv.Itoa(g.nfrag) + ": " + tr.String() + def + ")"
+		if r.Chance(1, 2) {
+			body += "  fvuse: __typename @include(if: $fv" + strconv.Itoa(g.nfrag) + ")\n"
+		}
+	}
+	g.frags = append(g.frags, "fragment "+name+fvars+" on "+cond+g.directives("FRAGMENT_DEFINITION")+" {\n"+body+"}\n")
 	return name
 }
 
@@ -595,7 +615,7 @@ func (g *docGen) operation(kind, name string) string {
 // It returns the text and the names of the faults actually injected.
 func GenDoc(r *Rng, s *GSchema, nfaults int) (string, []string) {
 	g := &docGen{r: r, s: s, faults: nfaults, fragType: map[string]string{}, fragOpen: map[string]bool{}}
-	nops := r.Weighted([]int{0, 6, 2, 1})
+	nops := r.Weighted([]int{1, 12, 4, 2}) // now and then a document of fragment definitions only
 	var ops []string
 	for i := 0; i < nops; i++ {
 		kind := "query"
@@ -620,6 +640,15 @@ func GenDoc(r *Rng, s *GSchema, nfaults int) (string, []string) {
 			}
 		}
 		ops = append(ops, g.operation(kind, name))
+	}
+	if nops == 0 {
+		// fragments only: a couple of definitions, one spreading the other
+		g.varDefs, g.varTypes, g.nvar = nil, map[string]string{}, 0
+		t := Pick(r, s.byKind("OBJECT", "INTERFACE"))
+		a := g.fragment(t, 2)
+		g.nfrag++
+		g.frags = append(g.frags, "fragment Top"+strconv.Itoa(g.nfrag)+" on "+t.Name+" {\n  ..."+a+"\n  __typename\n}\n")
+		return strings.Join(g.frags, "\n"), g.noted
 	}
 	// document-level faults that are always applicable: spend what is left
 	for tries := 0; g.faults > 0 && tries < 6; tries++ {
